@@ -24,7 +24,7 @@ variable {W : Type} (P : Prog) (sem : Sem W) (lo : Ops W)
 is not owned by another frame and its own `checkStart` passes — all evaluated in the state of the attempt;
 otherwise the preact returns falsy and nothing changes. -/
 theorem C10_start_conditions (i : Frid) (f : Fid) (needs : List NeedId) (aux : Frid) (tracts : List Act)
-    (s : St W) (hd : (s.fr aux).done = true) :
+    (s : St W) (hpl : (P.frame f).auxes.contains aux = false) (hd : (s.fr aux).done = true) :
     suspend P sem lo i f needs aux tracts s =
       (if needsHold sem needs s = true ∧ ownedElsewhere aux f s = false then
         match lo.checkStart aux [] s with
@@ -33,7 +33,7 @@ theorem C10_start_conditions (i : Frid) (f : Fid) (needs : List NeedId) (aux : F
         | .ok (some _) => suspendEnter P sem lo i f aux tracts s
        else .ok (false, s)) := by
   unfold suspend
-  simp only [hd, if_true]
+  simp only [hpl, hd, if_true, Bool.false_eq_true, if_false]
   unfold suspendStart
   cases hn : needsHold sem needs s <;> cases ho : ownedElsewhere aux f s <;> simp
   cases lo.checkStart aux [] s with
@@ -67,16 +67,28 @@ theorem C10_first_run_completes (i : Frid) (f : Fid) (aux : Frid) (tracts : List
 /-- **suspender_runs_until_done (1).**  While the auxiliary is not done and belongs to this clause's frame the
 preact does not look at its needs: it runs `aux.segue(); aux.recur()`. -/
 theorem C10_runs_irrespective_of_needs (i : Frid) (f : Fid) (needs : List NeedId) (aux : Frid) (tracts : List Act)
-    (s : St W) (hnd : (s.fr aux).done = false) (hown : notOwner P aux f s = false) :
+    (s : St W) (hpl : (P.frame f).auxes.contains aux = false) (hnd : (s.fr aux).done = false)
+    (hown : notOwner P aux f s = false) :
     suspend P sem lo i f needs aux tracts s = suspendRun P lo i aux s := by
-  simp [suspend, hnd, hown]
+  simp only [suspend, hpl, hnd, hown, Bool.false_eq_true, if_false]
 
 /-- (fix D3b) an original auxiliary that is running for another frame is neither run nor started by this
 clause: the preact returns falsy and nothing changes -/
 theorem C10_not_owner_noop (i : Frid) (f : Fid) (needs : List NeedId) (aux : Frid) (tracts : List Act)
     (s : St W) (hnd : (s.fr aux).done = false) (hno : notOwner P aux f s = true) :
     suspend P sem lo i f needs aux tracts s = .ok (false, s) := by
-  simp [suspend, hnd, hno]
+  unfold suspend
+  split
+  · rfl
+  · simp [hnd, hno]
+
+/-- (fix D3e) a conditional clause whose auxiliary is also a plain auxiliary of the same frame does nothing: the
+auxiliary is entered, run and exited with the frame (`C09_aux_entered_with_main` …) and by nothing else -/
+theorem C10_plain_and_conditional_noop (i : Frid) (f : Fid) (needs : List NeedId) (aux : Frid) (tracts : List Act)
+    (s : St W) (hpl : (P.frame f).auxes.contains aux = true) :
+    suspend P sem lo i f needs aux tracts s = .ok (false, s) := by
+  unfold suspend
+  rw [if_pos hpl]
 
 /-- in a well-formed program (every auxiliary named by one clause) the ownership test never fails: a
 conditional auxiliary that is not done belongs to the frame that names it (invariant `Owned.main`, kept by every
